@@ -40,7 +40,7 @@ def norm_enc(e):
     d.update(_common(e))
     if k == "type":
         ln = e.get("length")
-        d.update({"prim": e["prim"], "length": 1 if ln is None else ln, "presence": e.get("presence") or "required",
+        d.update({"prim": e["prim"], "length": 1 if ln is None else ln, "lengthGiven": ln is not None, "presence": e.get("presence") or "required",
                   "min": _s(e.get("min")), "max": _s(e.get("max")), "null": _s(e.get("null")),
                   "charEnc": _s(e.get("charEnc")), "const": _s(e.get("const")), "valueRef": _s(e.get("valueRef"))})
     elif k == "composite":
